@@ -46,7 +46,8 @@ RECURSIVE PV(_, _)
 PV(t, sg) ==
   CASE t.k = "num" -> Known({CInt(t.n)})
     [] t.k = "var" -> Known({sg[t.v]})
-    [] t.k = "sym" -> Known({VSym(t.r)})
+    \* placeholders (user guide) are symbolic constants whose value the substitution supplies under "#name"
+    [] t.k = "sym" -> IF ("#" \o t.c) \in DOMAIN sg THEN Known({sg["#" \o t.c]}) ELSE Known({VSym(t.r)})
     [] t.k = "inf" -> Known({VInf})
     [] t.k = "sup" -> Known({VSup})
     [] t.k = "neg" -> LET a == PV(t.a, sg) IN IF a.u THEN Unk ELSE Known({NegI(x) : x \in Ints(a.s)})
@@ -136,6 +137,45 @@ RuleG(r, vars, sg) ==
        IN Step[Len(D)]
 
 RuleGround(r) == RuleG(r, r.vars, <<>>)
+\* with placeholder values ph: [ "#name" |-> value ]
+RECURSIVE ProgramGroundPh(_, _)
+ProgramGroundPh(rules, ph) == IF rules = <<>> THEN TT
+                              ELSE LET g == RuleG(Head(rules), Head(rules).vars, ph) IN
+                                   IF g.k = "F" THEN FF ELSE PAnd(g, ProgramGroundPh(Tail(rules), ph))
+
+\* ---------------------------------------------------------------- support of a ground atom by the rules of a program
+\* Supp(rules, a, ph): the disjunction, over all rules whose head predicate is a's and all their instances whose head
+\* value set contains a, of the instance's body (for a choice rule: body and a itself).  An atom of a predicate
+\* defined by these rules belongs to a supported model iff this formula holds.
+SuppInst(r, sg, a) ==
+  IF r.head.k = "falsity" THEN FF
+  ELSE IF r.head.a.p # a[1] \/ Len(r.head.a.args) # Len(a[2]) THEN FF
+  ELSE LET tp == Tuples(r.head.a.args, sg) IN
+       IF tp.u THEN (LET b == BodyG(r.body, sg, TT) IN IF b.k = "F" THEN FF ELSE UU)
+       ELSE LET hits == {IF x = a[2] THEN "T" ELSE IF \A i \in DOMAIN x : Eq3(x[i], a[2][i]) # "F" THEN "U" ELSE "F" : x \in tp.s}
+                self == IF r.head.k = "choice" THEN [k |-> "a", a |-> a] ELSE TT
+            IN IF "T" \in hits THEN PAnd(BodyG(r.body, sg, TT), self)
+               ELSE IF "U" \in hits THEN (LET b == BodyG(r.body, sg, TT) IN IF b.k = "F" THEN FF ELSE UU)
+               ELSE FF
+RECURSIVE SuppRule(_, _, _, _)
+SuppRule(r, vars, sg, a) ==
+  IF vars = <<>> THEN SuppInst(r, sg, a)
+  ELSE LET v == Head(vars)
+           D == Dom("g")
+           bound == DOMAIN sg \cup {v}
+           ready == {i \in DOMAIN r.body : BodyVars(r.body[i]) \subseteq bound /\ v \in BodyVars(r.body[i])}
+           Step[j \in 0..Len(D)] ==
+             IF j = 0 THEN FF
+             ELSE LET prev == Step[j - 1] IN
+                  IF prev.k = "T" THEN TT
+                  ELSE LET sg2 == (v :> D[j]) @@ sg
+                           dead == \E i \in ready : BodyLit(r.body[i], sg2).k = "F"
+                       IN IF dead THEN prev ELSE POr(prev, SuppRule(r, Tail(vars), sg2, a))
+       IN Step[Len(D)]
+RECURSIVE Supp(_, _, _)
+Supp(rules, a, ph) == IF rules = <<>> THEN FF
+                      ELSE LET g == SuppRule(Head(rules), Head(rules).vars, ph, a) IN
+                           IF g.k = "T" THEN TT ELSE POr(g, Supp(Tail(rules), a, ph))
 
 RECURSIVE ProgramGround(_)
 ProgramGround(rules) == IF rules = <<>> THEN TT
